@@ -54,6 +54,9 @@ type Check struct {
 	// MinNontrivial: fewer distinct non-trivial cases make the run inconclusive.
 	MinNontrivial int64
 	Shards        int // 0: number of CPUs
+	// Families386 names the families that are run a second time in a binary built with GOARCH=386
+	// (32-bit int and pointers), when ./run built one and the host can execute it.
+	Families386 []string
 	// WorkerProcs: GOMAXPROCS of each worker process (default 1).
 	WorkerProcs int
 	Exhaustive  func(tier string) bool
@@ -337,7 +340,7 @@ func Checks() []string {
 func workDir(id string) string { return filepath.Join(OutDir(), "work", id) }
 
 // RunWorker executes the shard's share of every family and writes the result.
-func RunWorker(id, tier string, shard, nshard int, out string) int {
+func RunWorker(id, tier string, shard, nshard int, out string, only ...string) int {
 	ch := registry[id]
 	if ch == nil {
 		fmt.Fprintln(os.Stderr, "unknown check", id)
@@ -356,6 +359,9 @@ func RunWorker(id, tier string, shard, nshard int, out string) int {
 	stop := make(chan struct{})
 	go c.watchdog(progressFile, stop)
 	for _, fam := range ch.Families {
+		if len(only) > 0 && only[0] != "" && !strings.Contains(","+only[0]+",", ","+fam.Name+",") {
+			continue
+		}
 		n := fam.N(tier)
 		c.curFamily = fam.Name
 		for idx := uint64(shard); idx < n; idx += uint64(nshard) {
@@ -546,8 +552,18 @@ func RunCheck(id, tier string) int {
 			out   string
 			log   string
 		}
-		results := make([]wres, nshard)
-		for s := 0; s < nshard; s++ {
+		// Optional second pass of some families in a 32-bit binary.
+		bin386 := os.Getenv("VERIF_VCHECK386")
+		n386 := 0
+		if bin386 != "" && len(ch.Families386) > 0 {
+			if err := exec.Command(bin386, "list").Run(); err == nil {
+				n386 = nshard
+			} else {
+				total.Extra["goarch_386_pass"] = "host cannot execute the 386 binary: " + err.Error()
+			}
+		}
+		results := make([]wres, nshard+n386)
+		for s := 0; s < nshard+n386; s++ {
 			wg.Add(1)
 			go func(s int) {
 				defer wg.Done()
@@ -555,6 +571,9 @@ func RunCheck(id, tier string) int {
 				logp := filepath.Join(wd, fmt.Sprintf("shard-%d.log", s))
 				lf, _ := os.Create(logp)
 				cmd := exec.Command(self, "worker", id, "--tier", tier, "--shard", strconv.Itoa(s), "--nshard", strconv.Itoa(nshard), "--out", out)
+				if s >= nshard {
+					cmd = exec.Command(bin386, "worker", id, "--tier", tier, "--shard", strconv.Itoa(s-nshard), "--nshard", strconv.Itoa(nshard), "--out", out, "--families", strings.Join(ch.Families386, ","), "--label", "GOARCH=386")
+				}
 				cmd.Stdout = lf
 				cmd.Stderr = lf
 				procs := 1
@@ -600,6 +619,12 @@ func RunCheck(id, tier string) int {
 			if err := json.Unmarshal(b, &wr); err != nil {
 				crashed = append(crashed, fmt.Sprintf("shard %d: bad result: %v", r.shard, err))
 				continue
+			}
+			if r.shard >= nshard {
+				total.Counters["cases_also_run_under_GOARCH_386"] += wr.Evaluations
+				for i := range wr.Violations {
+					wr.Violations[i].Msg = "[GOARCH=386, 32-bit int] " + wr.Violations[i].Msg
+				}
 			}
 			mergeResult(total, &wr)
 			if dg, err := os.ReadFile(r.out + ".digests"); err == nil {
